@@ -44,13 +44,23 @@ Lib ==
       tpl  |-> << Slot("a", FALSE, FALSE, << <<"k", V("x")>> >>, << T("L6"), Var("x") >>),
                   Slot("b", FALSE, FALSE, <<>>, << Slot("a", FALSE, FALSE, <<>>, << T("L7") >>) >>),
                   Isf("b") >>],
-     \* c4: leaf with a required default slot
+     \* c4: consumer without default (KeyError outside a provider), provider around a slot,
+     \*     consumer components inside its own provider and after it
+     [data |-> << Data("inj", "inject", "", "p", ""), Data("ik", "injkeys", "", "p", "") >>,
+      tpl  |-> << [t |-> "fld", x |-> "inj", f |-> "f"], Var("ik"),
+                  [t |-> "provide", key |-> "p", kw |-> << <<"f", C("c4in")>>, <<"g", C("c4g")>> >>,
+                   a |-> << Slot("a", TRUE, FALSE, <<>>, << Comp(5, <<>>, FALSE, "none", <<>>) >>) >>],
+                  Comp(5, <<>>, FALSE, "none", <<>>) >>],
+     \* c5: leaf with a required default slot; consumer with a default
      [data |-> << Data("z", "const", "c4z", "", ""), Data("inj", "inject", "", "p", "none") >>,
       tpl  |-> << T("L8"), Slot("a", TRUE, TRUE, <<>>, <<>>), Var("z"), [t |-> "fld", x |-> "inj", f |-> "f"] >>]
   >>
 
 Ctx == << <<"x", Str("px")>>, <<"y", Str("py")>>, <<"xs", [k |-> "l", v |-> <<"i1", "i2">>]>>,
           <<"on", Str("1")>>, <<"off", Str("")>> >>
+
+\* which components the page may use
+CompSet == IF Alphabet = "provide" THEN {2, 4, 5} ELSE {1, 2, 3, 5}
 
 \* ---- page construction ----------------------------------------------------
 VARIABLES stack, n
@@ -60,12 +70,12 @@ Frame(node) == [node |-> node, kids |-> <<>>]
 Root == [t |-> "root"]
 
 LeafTokens ==
-  {T("t"), Var("x")} \cup {Comp(c, <<>>, FALSE, "none", <<>>) : c \in 1..Len(Lib)} \cup
+  {T("t"), Var("x")} \cup {Comp(c, <<>>, FALSE, "none", <<>>) : c \in CompSet} \cup
   (CASE Alphabet = "slots" -> {[t |-> "fld", x |-> "sd", f |-> "k"], [t |-> "defref", x |-> "df"]}
      [] Alphabet = "scope" -> {Var("i"), Var("w"), Var("y"), Comp(2, << <<"x", V("i")>> >>, TRUE, "none", <<>>)}
      [] Alphabet = "provide" -> {})
 OpenTokens ==
-  {Comp(c, <<>>, FALSE, b, <<>>) : c \in 1..Len(Lib), b \in {"impl", "fills"}} \cup
+  {Comp(c, <<>>, FALSE, b, <<>>) : c \in CompSet, b \in {"impl", "fills"}} \cup
   (CASE Alphabet = "slots" -> {[t |-> "if", x |-> "on", a |-> <<>>, b |-> <<>>], For("i", "xs", <<>>)}
      [] Alphabet = "scope" -> {For("i", "xs", <<>>), For("x", "xs", <<>>),
                                [t |-> "with", x |-> "w", e |-> C("kw"), a |-> <<>>],
@@ -73,7 +83,8 @@ OpenTokens ==
                                [t |-> "with", x |-> "y", e |-> V("i"), a |-> <<>>]}
      [] Alphabet = "provide" ->
           {[t |-> "provide", key |-> "p", kw |-> << <<"f", C("pv1")>> >>, a |-> <<>>],
-           [t |-> "provide", key |-> "p", kw |-> << <<"f", V("x")>> >>, a |-> <<>>],
+           [t |-> "provide", key |-> "p", kw |-> << <<"f", V("x")>>, <<"h", C("ph")>> >>, a |-> <<>>],
+           [t |-> "provide", key |-> "q", kw |-> << <<"f", C("qv")>> >>, a |-> <<>>],
            For("i", "xs", <<>>)})
 FillTokens ==
   {Fill(C(s), "", "", <<>>) : s \in {"a", "b", "default"}} \cup
@@ -157,7 +168,7 @@ ReadsVar(nodes, i) ==
   IF i > Len(nodes) THEN FALSE
   ELSE LET nd == nodes[i] IN
        \/ nd.t \in {"var", "fld", "if", "for", "with", "defref"}
-       \/ (nd.t = "comp" /\ KwReads(nd.kw))
+       \/ (nd.t \in {"comp", "provide"} /\ KwReads(nd.kw))
        \/ (nd.t = "fill" /\ nd.ne.k = "v")
        \/ ("a" \in DOMAIN nd /\ ReadsVar(nd.a, 1))
        \/ ReadsVar(nodes, i + 1)
@@ -186,6 +197,6 @@ ExportLib ==
 Export ==
   Complete /\ HasComp(stack[1].kids, 1) =>
     LET r == Run(Prog(Mode, <<>>)) IN
-    Serialize(ToJson([page |-> stack[1].kids, mode |-> Mode, out |-> r.out, err |-> r.err,
+    Serialize(ToJson([page |-> stack[1].kids, mode |-> Mode, out |-> r.out, err |-> r.err, errs |-> r.errs,
                       zone |-> r.zone, insts |-> r.insts]) \o "\n", IOEnv.OUT, Opts).exitValue = 0
 =============================================================================
